@@ -330,7 +330,7 @@ def ctor_param_attrs(prog, init, _depth: int = 0):
         if isinstance(n, ast.Call) and isinstance(n.func, ast.Attribute) and n.func.attr == "__init__" and isinstance(n.func.value, ast.Call) \
                 and dotted(n.func.value.func) == "super" and init.cls is not None:
             base_init = None
-            for b in prog.mro(init.cls)[1:]:
+            for b in prog.super_bases(init):
                 if "__init__" in b.methods:
                     base_init = b.methods["__init__"]
                     break
